@@ -134,7 +134,7 @@ fn judge_cli(c: &CliCase, cls: &mut Classifier) -> Verdict {
 }
 
 pub fn run(ctx: &mut Ctx) {
-    ctx.rule = "byte strings: every length 0..=1100 (seeded random content, first byte forced through all 256 values and ASCII digits), lengths 10^k-1,10^k,10^k+1 (k=1..6 quick, 1..7 thorough), special contents (NUL, newline, invalid UTF-8, digits only) and proptest-generated strings; oracle: keccak(0x19 'Ethereum Signed Message:\\n' dec(len) m) via sha3 with own decimal loop, for Vec<u8>, &[u8] and String carriers; CLI sample: `hash message` prints that digest and the `sign message` signature recovers to the reference-derived signer over it (file and stdin, non-UTF-8 and trailing-newline contents). Non-trivial: message differs from the pinned 12-byte unit-test message; distinct by content.".into();
+    ctx.rule = "byte strings: every length 0..=1100 (seeded random content, first byte forced through all 256 values and ASCII digits), lengths 10^k-1,10^k,10^k+1 (k=1..6 quick, 1..7 thorough), special contents (NUL, newline, invalid UTF-8, digits only) and proptest-generated strings; oracle: keccak(0x19 'Ethereum Signed Message:\\n' dec(len) m) via sha3 with own decimal loop, for Vec<u8>, &[u8] and String carriers; CLI sample: `hash message` prints that digest and the `sign message` signature recovers to the reference-derived signer over it (file and stdin; non-UTF-8 and trailing-newline contents, and a table of contents that look like another encoding or carry a marker: byte-order marks, hex/JSON/base64/escape look-alikes, white-space framing, option-like text, NULs). Non-trivial: message differs from the pinned 12-byte unit-test message; distinct by content.".into();
     ctx.assumptions = vec!["sha3::Keccak256 is a correct Keccak-256".into()];
     ctx.replay_known_and_regressions(&replay);
 
@@ -158,6 +158,9 @@ pub fn run(ctx: &mut Ctx) {
     }
     for special in [&b"\n"[..], b"\0", b"\xff\xfe", b"\x19Ethereum Signed Message:\n0", b"12hello world!", b"\xc3\x28", b"\xf0\x9f\x98\x80"] {
         cases.push(Case::of(special));
+    }
+    for t in crate::gen::TRICKY_BYTES {
+        cases.push(Case::of(t));
     }
     ctx.run_cases("sweep", &cases, judge);
     ctx.exhaustive_parts.push("message lengths 0..=1100".into());
@@ -211,6 +214,12 @@ pub fn run(ctx: &mut Ctx) {
                 _ => {}
             }
             cc.push(CliCase { msg_hex: hex_lower(&m), stdin: i % 2 == 0 });
+        }
+        // contents that look like another encoding or carry a marker (BOM, hex/JSON look-alikes, white-space
+        // framing, option-like text, NULs): each through the file and the stdin channel
+        for t in crate::gen::TRICKY_BYTES {
+            cc.push(CliCase { msg_hex: hex_lower(t), stdin: false });
+            cc.push(CliCase { msg_hex: hex_lower(t), stdin: true });
         }
         ctx.run_cases("cli-message", &cc, judge_cli);
         if ctx.cls.count("timed-out") > 0 {
